@@ -6,6 +6,7 @@ package bubble
 import (
 	"fmt"
 	"io"
+	"os"
 	"regexp"
 	"runtime"
 	"sort"
@@ -115,6 +116,12 @@ func SetupLogging() {
 	hookOnce.Do(func() {
 		log.SetOutput(io.Discard)
 		log.SetLevel(log.WarnLevel)
+		if os.Getenv("VERIF_LOG") != "" { // debugging aid: full socketace log on stderr
+			log.SetOutput(os.Stderr)
+			if lvl, err := log.ParseLevel(os.Getenv("VERIF_LOG")); err == nil {
+				log.SetLevel(lvl)
+			}
+		}
 		log.AddHook(hook)
 	})
 }
